@@ -647,7 +647,8 @@ static void prediction_structure_dctor(EbPtr p) {
     PredictionStructureEntry **pe    = obj->pred_struct_entry_ptr_array;
     uint32_t                   count = obj->pred_struct_entry_count;
     if (pe) {
-        for (uint32_t i = 0; i < count; i++) {
+        // the entries are one block hanging off pe[0]; it is missing if its allocation failed
+        for (uint32_t i = 0; pe[0] && i < count; i++) {
             EB_FREE_ARRAY(pe[i]->ref_list0.reference_list);
             EB_FREE_ARRAY(pe[i]->ref_list1.reference_list);
             EB_FREE_ARRAY(pe[i]->dep_list0.list);
